@@ -66,8 +66,7 @@ func corpus(c *Ctx, max int) []srcFile {
 	}
 	if max > 0 && len(paths) > max {
 		r := rand.New(rand.NewSource(c.Seed))
-		// always keep the template, the small hand-written files (at most half of a small sample), and a
-		// seeded sample of the rest
+		// always keep the template and the hand-written files, and a seeded sample of the rest
 		var keep, extra, rest []string
 		for _, p := range paths {
 			switch {
@@ -79,15 +78,19 @@ func corpus(c *Ctx, max int) []srcFile {
 				rest = append(rest, p)
 			}
 		}
-		if len(extra) > max*3/4 { // the hand-written files come first: they hold the constructs the seed rounds asked for
-			r.Shuffle(len(extra), func(i, j int) { extra[i], extra[j] = extra[j], extra[i] })
-			extra = extra[:max*3/4]
-		}
+		// the hand-written files are always all there (they are small and hold the constructs the seed rounds
+		// asked for: which seeded change a small sample catches must not depend on the seed); the rest of the
+		// sample, at least a quarter of it, is drawn from the other files
 		keep = append(keep, extra...)
 		r.Shuffle(len(rest), func(i, j int) { rest[i], rest[j] = rest[j], rest[i] })
-		if n := max - len(keep); n > 0 && n <= len(rest) {
-			keep = append(keep, rest[:n]...)
+		n := max - len(keep)
+		if n < max/4+1 {
+			n = max/4 + 1
 		}
+		if n > len(rest) {
+			n = len(rest)
+		}
+		keep = append(keep, rest[:n]...)
 		paths = keep
 		sort.Strings(paths)
 	}
